@@ -822,6 +822,11 @@ func (s *SpecValidator) validateReferencesValid() *Result {
 		}
 		s.expanded = exp
 	}
+	if s.expanded == nil {
+		// The spec could not be expanded. Further checks resolve parameters and responses in place:
+		// carry on with a private copy, so the caller's document is left untouched.
+		s.expanded = s.spec.Pristine()
+	}
 	return res
 }
 
